@@ -489,24 +489,53 @@ Definition start_coord (o : order) (c : config) (k : coord) : bool :=
   | _ => true
   end.
 
+(* Listening sockets ("listeners opened" is what the property observes).  httpserver.Coordinator.Configure only builds
+   http.Server values (httpserver/coordinator.go:61-118: no net.Listen); no other Configure opens a socket either.  The
+   listeners are bound by httpserver.Coordinator.Start (172-191; if one cannot be bound the ones bound so far are closed
+   again, 176-186) and closed by its Stop (213-220).  A listener is named by its module; with no httpserver section the
+   coordinator invents the module "default" on ":0" (63-66), written 0 here (no configured module has the empty name). *)
+Definition default_listener : str := 0.
+Definition listener_names (c : config) : list str :=
+  match cfg_http c with [] => [default_listener] | l => map hs_name l end.
+
+Definition configure_listens (c : config) (k : coord) : list str := [].          (* bound by k.Configure *)
+Definition start_listens (c : config) (k : coord) : list str :=                  (* bound by k.Start, closed by k.Stop *)
+  match k with CHttpserver => listener_names c | _ => [] end.
+
+Definition coord_eqb (x y : coord) : bool :=
+  match x, y with
+  | CZookeeper, CZookeeper | CStorage, CStorage | CEvaluator, CEvaluator | CHttpserver, CHttpserver
+  | CNotifier, CNotifier | CCluster, CCluster | CConsumer, CConsumer => true
+  | _, _ => false
+  end.
+
+(* the sockets still listening when Start returns: whatever a Configure bound (core.Start has no path that would close
+   it: Stop is only called on coordinators that were started), plus what the started-and-not-stopped coordinators hold *)
+Definition still_listening (c : config) (configured started stopped : list coord) : list str :=
+  flat_map (configure_listens c) configured ++
+  flat_map (start_listens c) (filter (fun k => negb (existsb (coord_eqb k) stopped)) started).
+
 Inductive result :=
-  | Returned (rc : Z) (started : list coord)     (* started = coordinators whose Start was entered *)
+  | Returned (rc : Z) (started : list coord) (listening : list str)
+      (* started = coordinators whose Start was entered; listening = listeners still open when Start returns *)
   | Panicked (p : panic).
 
 Definition nothing_started : list coord := [].
+Definition no_listener : list str := [].
 
-(* core/burrow.go:180-202: start in order; on the first error stop the earlier ones and return 1; otherwise wait for the
-   exit channel (the probe closes it beforehand), stop everything, return 0. *)
+(* core/burrow.go:180-202: start in order; on the first error stop the earlier ones (the failing one keeps nothing) and
+   return 1; otherwise wait for the exit channel (the probe closes it beforehand), stop everything, return 0. *)
 Fixpoint start_list (o : order) (c : config) (todo started : list coord) : result :=
   match todo with
-  | [] => Returned 0 started
-  | k :: r => if start_coord o c k then start_list o c r (started ++ [k]) else Returned 1 (started ++ [k])
+  | [] => Returned 0 started (still_listening c (coordinators c) started started)
+  | k :: r => if start_coord o c k then start_list o c r (started ++ [k])
+              else Returned 1 (started ++ [k]) (still_listening c (coordinators c) started started)
   end.
 
 Definition start_with (h : handler) (o : order) (c : config) (a : app_state) : result :=
   match configure_coordinators h o c a with
   | CfgPanic p => Panicked p
-  | CfgReturn false => Returned 1 nothing_started          (* core/burrow.go:176-178 *)
+  | CfgReturn false => Returned 1 nothing_started (still_listening c (configured o c) [] [])   (* core/burrow.go:176-178 *)
   | CfgReturn true => start_list o c (coordinators c) []
   end.
 
